@@ -3,7 +3,7 @@
 CONSTANTS
   Snaps <- MCSnaps3
   Gaters <- MCGaters
-  HoldSets <- MCHoldSets
+  HoldSets <- MCHoldSets3Q
   Ticks <- MCTicksQ
   SysDurs <- MCSysDurs
   ExplicitDurs <- MCNoDurs
